@@ -12,7 +12,7 @@ SPEC = {
                   "rendering of cases; time.Time arithmetic modelled on Z ns (Unix() = floor), float64 exact below 2^53.",
     "drivers": [{"pkg": "internal/corerad", "test": "TestVerifC18", "timeout": 900},
                 # real parallelism: monitors of different interfaces at once, with a scraper beside them
-                {"pkg": "internal/corerad", "test": "TestVerifParallel", "newgo": True, "timeout": 600, "arch386": []}],
+                {"pkg": "internal/corerad", "test": "TestVerifParallel", "newgo": True, "timeout": 600, "arch386": [], "env": {"VERIF_PAR": "monitors"}}],
     "known_classes": {},
     "rule": "histories of 1..8 messages to one Monitor: 72% RAs (arbitrary header, router lifetime 0 / 1s / 65535s / sub-second, 0..6 "
             "prefix options from a pool (so prefixes repeat) or with random address and length 0..128, unmasked prefixes and sub-second "
